@@ -322,20 +322,9 @@ func (t *wireTap) hop(req *tikvrpc.Request) {
 	m := t.mon
 	cmd := req.Type.String()
 	cp := *req
-	if !tikvrpc.AttachContext(&cp, cp.Context) {
+	if !tikvrpc.AttachContext(&cp, cp.Context) && hasField(req.Req, "Context") {
 		m.mu.Lock()
-		m.fail("wirehop-attach-context", cmd, "AttachContext refuses command type %s", cmd)
-		m.mu.Unlock()
-	}
-	probe := &errorpb.Error{Message: "probe", ServerIsBusy: &errorpb.ServerIsBusy{Reason: "probe"}}
-	r, err := tikvrpc.GenRegionErrorResp(&cp, probe)
-	var back *errorpb.Error
-	if err == nil {
-		back, err = r.GetRegionError()
-	}
-	if err != nil || back != probe {
-		m.mu.Lock()
-		m.fail("wirehop-region-error", cmd, "a region-error response for command type %s cannot be generated and read back: err=%v got=%v", cmd, err, back)
+		m.fail("wirehop-attach-context", cmd, "the request message of command type %s (%T) has a context field, but AttachContext does not know the type: the message leaves without api version and keyspace id", cmd, req.Req)
 		m.mu.Unlock()
 	}
 	if b := cp.ToBatchCommandsRequest(); b != nil {
@@ -374,10 +363,43 @@ func (t *wireTap) leave(counted bool) {
 	}
 }
 
+// hopBack: a command whose response message can carry a region error must be known to
+// GenRegionErrorResp, and the error must be readable from what it builds.
+func (t *wireTap) hopBack(req *tikvrpc.Request, resp *tikvrpc.Response) {
+	if resp == nil || resp.Resp == nil || !hasField(resp.Resp, "RegionError") {
+		return
+	}
+	m := t.mon
+	cmd := req.Type.String()
+	probe := &errorpb.Error{Message: "probe", ServerIsBusy: &errorpb.ServerIsBusy{Reason: "probe"}}
+	r, err := tikvrpc.GenRegionErrorResp(req, probe)
+	var back *errorpb.Error
+	if err == nil {
+		back, err = r.GetRegionError()
+	}
+	if err != nil || back != probe {
+		m.mu.Lock()
+		m.fail("wirehop-region-error", cmd, "a region-error response for command type %s cannot be generated and read back: err=%v got=%v", cmd, err, back)
+		m.mu.Unlock()
+	}
+}
+
+func hasField(msg interface{}, name string) bool {
+	v := reflect.ValueOf(msg)
+	if v.Kind() != reflect.Ptr || v.IsNil() || v.Elem().Kind() != reflect.Struct {
+		return false
+	}
+	return v.Elem().FieldByName(name).IsValid()
+}
+
 func (t *wireTap) SendRequest(ctx context.Context, addr string, req *tikvrpc.Request, timeout time.Duration) (*tikvrpc.Response, error) {
 	t.hop(req)
 	defer t.leave(t.enter(req))
-	return t.Client.SendRequest(ctx, addr, req, timeout)
+	resp, err := t.Client.SendRequest(ctx, addr, req, timeout)
+	if err == nil {
+		t.hopBack(req, resp)
+	}
+	return resp, err
 }
 
 func (t *wireTap) SendRequestAsync(ctx context.Context, addr string, req *tikvrpc.Request, cb async.Callback[*tikvrpc.Response]) {
@@ -385,6 +407,9 @@ func (t *wireTap) SendRequestAsync(ctx context.Context, addr string, req *tikvrp
 	counted := t.enter(req)
 	cb.Inject(func(resp *tikvrpc.Response, err error) (*tikvrpc.Response, error) {
 		t.leave(counted)
+		if err == nil {
+			t.hopBack(req, resp)
+		}
 		return resp, err
 	})
 	t.Client.SendRequestAsync(ctx, addr, req, cb)
